@@ -39,17 +39,31 @@ R2  thrust shape: the returned thrust is np.where(T < 0, D, T) (or the `>= 0`
     only under a condition that says no element of that thrust is negative
     (not any(T < 0), all(T >= 0), min(T) >= 0); any other condition (no
     descending point, all cruise, ...) lets negative thrust escape: violation.
+    An object that only files its constructor arguments (`profile = P(temperature, altitude, …)`: NamedTuple,
+    dataclass, or an __init__ of `self.f = parameter` statements) gives back the argument at `profile.f` when nobody in
+    the package stores to `.f` afterwards.  A compute-once call `profile.m('key', lambda: E)` is E when R8 (below)
+    accepts the call site; otherwise R2 / R3 leave the verdict to R8 (or are undecided with it).
 R3  cruise-only correction: specific ground range is np.divide(groundspeed, F,
     where=F != 0) with F = np.where(in_cruise, cruise fuel flow, nominal fuel
     flow), both from one thrust and v_tas, the thrust from calculate_thrust at
-    the state passed in.
+    the state passed in - the call, or the same value written out in place
+    (equal, locals resolved, to what calculate_thrust returns for the
+    parameters of the same names).
 R4  trapezoid update: the single store to mass is mass[1:] = mass[0] −
     cumulative_trapezoid(1 / S, dx=segment_distance), backward mass[:-1] =
     mass[-1] + cumulative_trapezoid((1 / S) reversed, dx=…) reversed, with S the
     specific ground range floored: np.where(sgr < 1, np.inf, sgr).
 R5  MTOW clamp: in the fuel-dependent initial-mass iterations mass[0] is only
     ever assigned from min(…, mtow); the two sibling iterations agree up to the
-    reserve term.
+    reserve term.  And the vector is only handed back capped: at every `return`
+    of the mass vector inside or after the iteration loop the last store to
+    mass[0] on every path is that capped assignment (must-analysis over the
+    statement structure: a new array or any other store to mass[0] un-caps, the
+    forward update keeps mass[0], arms of a test are joined, a loop runs at least
+    one pass and its body is judged for the state before the loop and for the
+    state a pass leaves) - a convergence test that returns before the first
+    pass has assigned the capped take-off mass hands back the caller's
+    estimate, which may lie above MTOW.
 R7  assign_parameters_fromdict assigns every entry it is given (no value-based
     skipping).
 R9  flight state handed on as received: in every entry point of the iteration (a public method of Bada3FuelBurnModel
@@ -60,7 +74,12 @@ R9  flight state handed on as received: in every entry point of the iteration (a
     point's own parameter of that name, unmodified (shape-preserving coercions aside); a parameter that arrives under
     another role (ground speed as true airspeed) is a violation.  The mass it is evaluated for is a mass vector computed in
     the function; every update_mass_vector[_backward] call receives the specific ground range evaluated for the mass
-    vector it updates and the entry point's segment_distance.  Decided by abstract interpretation over the CFG (values:
+    vector it updates and the entry point's segment_distance.  An evaluation written out in place (the helper that took
+    the state as an object was dissolved into the entry point) counts when the range handed to the update - resolved over
+    the straight-line statements of its block, objects built once from the parameters included - equals, with one mass
+    expression M throughout, what calculate_specific_ground_range returns for the entry point's own seven state
+    parameters (none of them rebound to anything but itself); M must be the vector being updated.
+    Decided by abstract interpretation over the CFG (values:
     parameter as received / record of values / result of call sites / specific ground range with its bound arguments;
     joins keep what all paths agree on).  Floors: four entry points, each with an evaluation and an update.
 R8  a formula is a function of its arguments: a method of the model classes that can return something an earlier call
@@ -68,6 +87,14 @@ R8  a formula is a function of its arguments: a method of the model classes that
     compared with the stored key, that determines by content every argument the computed answer reads; a key built
     from id(...) of an argument, or one that omits an argument that is read, is a violation.  An embedded
     last-result memo that leaves v_tas out of its key is the positive control.
+    A compute-once accessor of any class of the package (`m(self, key, compute)`: whatever its control flow, every value
+    it returns is `compute()` or the entry of one attribute S under `key`, and what it stores in S goes under `key`) is
+    judged at each call site `obj.m('k', lambda: E)`: the answer is the one this call would compute when S is the
+    object's own (created empty in the constructor / default_factory=dict, touched by nothing but the accessor), 'k' is a
+    literal that every call site of the package pairs with the same computation, E reads only `obj` and `self`, and no
+    field of the object is stored to after construction.  S bound in the class body only (one dictionary for all
+    objects of the process), E reading a local that changes between calls on the same object (the mass), or one key
+    standing for two computations is a violation; anything else that cannot be shown is undecided.
 R6  equation conformance (T-ALG): the value every BADA-3 formula method returns - locals resolved, package helper
     functions looked through, and `self.m(...)` calls opened by substitution when every class the object can have finds
     the same definition of m - equals the independent transcription in reference_equations.py as an exact rational
@@ -435,6 +462,415 @@ def _match_arm(s: ast.Match, subject):
     return []
 
 
+# --- objects that carry the flight state, and answers kept on them -------------------------------------------
+#
+# A refactoring may bundle the flight state in an object (`profile = Profile(temperature, altitude, ...)`) and keep
+# quantities derived from it on that object (`profile.derived('max_thrust', lambda: self._max_thrust(profile))`).
+# A field read of such an object *is* the constructor argument when nobody stores to the field after construction;
+# a compute-once call *is* its thunk when the store it answers from belongs to this one object (created empty in its
+# constructor, touched by nobody else), the key is a literal that every call site pairs with the same computation,
+# and the computation reads nothing but the object itself and `self` - then an earlier answer under that key on that
+# object is the answer computed now.
+
+def _package_modules(prog):
+    return [m for m in prog.src_modules() if m.relpath.startswith('src/AEIC/BADA/')]
+
+
+def _attr_mentions(prog):
+    """attribute name -> [(module, class name or None, function name or None, node, parent)] for every `x.attr` in the
+    BADA package (cached per program)"""
+    cache = prog.__dict__.get('_c19_attr_mentions')
+    if cache is not None:
+        return cache
+    cache = {}
+
+    def visit(m, n, cls, fn, parent):
+        if isinstance(n, ast.ClassDef):
+            cls, fn = n.name, None
+        elif isinstance(n, (ast.FunctionDef, ast.AsyncFunctionDef)):
+            fn = fn or n.name
+        if isinstance(n, ast.Attribute):
+            cache.setdefault(n.attr, []).append((m, cls, fn, n, parent))
+        for ch in ast.iter_child_nodes(n):
+            visit(m, ch, cls, fn, n)
+    for m in _package_modules(prog):
+        visit(m, m.tree, None, None, None)
+    prog.__dict__['_c19_attr_mentions'] = cache
+    return cache
+
+
+_MUTATORS = ('append', 'extend', 'insert', 'pop', 'popitem', 'clear', 'update', 'setdefault', 'remove', 'sort', 'reverse',
+             'fill', 'resize', 'put', 'itemset', '__setitem__', '__delitem__', 'add', 'discard')
+
+
+def _is_write(n, parent):
+    """the attribute node `n` is stored to, deleted, element-stored, augmented or mutated through a method"""
+    if isinstance(n.ctx, (ast.Store, ast.Del)):
+        return True
+    if isinstance(parent, ast.Subscript) and parent.value is n and isinstance(parent.ctx, (ast.Store, ast.Del)):
+        return True
+    if isinstance(parent, ast.Attribute) and parent.value is n and parent.attr in _MUTATORS:
+        return True
+    return False
+
+
+def _field_frozen(prog, k, field):
+    """nobody in the package stores to `.field` of any object, the constructor of `k` (on self) aside"""
+    for m, cls, fn, n, parent in _attr_mentions(prog).get(field, ()):
+        if not _is_write(n, parent):
+            continue
+        if cls == k.name and m is k.module and fn in ('__init__', '__post_init__') and isinstance(n.value, ast.Name) and n.value.id == 'self':
+            continue
+        return False
+    return True
+
+
+def _simple_arg(e):
+    return isinstance(e, (ast.Name, ast.Constant)) or (isinstance(e, ast.Attribute) and _simple_arg(e.value))
+
+
+def ctor_fields(prog, module, call):
+    """{field: constructor argument} for `K(args)` with K a class of the program whose construction only files its
+    arguments: a NamedTuple / dataclass without __init__, or an __init__ whose top-level statements `self.f = <parameter>`
+    are followed; only fields nobody stores to afterwards are given.  -> (class, mapping) or None"""
+    if not isinstance(call, ast.Call):
+        return None
+    k = prog.resolve_class_expr(module, call.func)
+    if k is None:
+        return None
+    out = {}
+    rf = _record_fields(prog, module, call.func)
+    if rf is not None:
+        names = [n for n, _ in rf[1]]
+        if any(isinstance(a, ast.Starred) for a in call.args) or any(kw.arg is None for kw in call.keywords) or len(call.args) > len(names):
+            return None
+        out = dict(zip(names, call.args))
+        for kw in call.keywords:
+            if kw.arg in out or kw.arg not in names:
+                return None
+            out[kw.arg] = kw.value
+        for n, d in rf[1]:
+            if n not in out and isinstance(d, ast.Constant):
+                out[n] = d
+    else:
+        init = k.find_method('__init__')
+        if init is None or init.node.decorator_list or k.find_method('__new__') is not None \
+                or k.find_method('__getattr__') is not None or k.find_method('__getattribute__') is not None:
+            return None
+        b = bind_args(call, init.node, True)
+        if b is None:
+            return None
+        rebound = {x.id for x in walk_no_nested(init.node) if isinstance(x, ast.Name) and isinstance(x.ctx, (ast.Store, ast.Del))}
+        seen = set()
+        for st in init.node.body:
+            tv = None
+            if isinstance(st, ast.Assign) and len(st.targets) == 1:
+                tv = (st.targets[0], st.value)
+            elif isinstance(st, ast.AnnAssign) and st.value is not None:
+                tv = (st.target, st.value)
+            if tv is None:
+                continue
+            t, v = tv
+            if isinstance(t, ast.Attribute) and isinstance(t.value, ast.Name) and t.value.id == 'self':
+                if t.attr in seen:
+                    out.pop(t.attr, None)
+                    continue
+                seen.add(t.attr)
+                if isinstance(v, ast.Name) and v.id in b and v.id not in rebound:
+                    out[t.attr] = b[v.id]
+        # a field stored under a branch / loop of the constructor is not a plain copy of the argument
+        for x in walk_no_nested(init.node):
+            if isinstance(x, ast.Attribute) and isinstance(x.ctx, (ast.Store, ast.Del)) and isinstance(x.value, ast.Name) \
+                    and x.value.id == 'self' and x.attr in out \
+                    and not any(x is (st.targets[0] if isinstance(st, ast.Assign) else getattr(st, 'target', None)) for st in init.node.body):
+                out.pop(x.attr, None)
+    props = {n for c in k.mro() for n in c.methods}
+    out = {f: a for f, a in out.items() if f not in props and _simple_arg(a) and _field_frozen(prog, k, f)}
+    return k, out
+
+
+def fold_record_reads(prog, module, e):
+    """`e` with `K(args).field` replaced by the argument the constructor files under that field (see ctor_fields)"""
+    class T(ast.NodeTransformer):
+        def visit_Attribute(self, n):
+            n = self.generic_visit(n)
+            if isinstance(n.ctx, ast.Load) and isinstance(n.value, ast.Call):
+                cf = ctor_fields(prog, module, n.value)
+                if cf is not None and n.attr in cf[1]:
+                    return _clone(cf[1][n.attr])
+            return n
+    if not any(isinstance(x, ast.Attribute) and isinstance(x.value, ast.Call) for x in ast.walk(e)):
+        return e
+    return T().visit(e)
+
+
+def memo_method(f):
+    """Is method `f(self, key, compute)` a compute-once accessor?  Every value it returns is `compute()` evaluated now or
+    the entry of one instance attribute S under `key`, and everything it stores in S goes under `key` and is such a value
+    - whatever the control flow (if absent / try-except KeyError / .get and test).  -> {'store', 'key', 'thunk'} or None"""
+    node = f.node
+    ps = f.params
+    a = node.args
+    if f.cls is None or len(ps) != 3 or ps[0] != 'self' or a.vararg or a.kwarg or a.kwonlyargs or node.decorator_list:
+        return None
+    thunks = {c.func.id for c in calls_in(node) if isinstance(c.func, ast.Name) and c.func.id in ps[1:] and not c.args and not c.keywords}
+    if len(thunks) != 1:
+        return None
+    thunk = next(iter(thunks))
+    key = next(p_ for p_ in ps[1:] if p_ != thunk)
+    stores = set()
+
+    def entry(e):
+        """attribute S when `e` is self.S[key] / self.S.get(key[, None])"""
+        if isinstance(e, ast.Subscript) and norm(e.slice) == key and isinstance(e.value, ast.Attribute) and norm(e.value.value) == 'self':
+            return e.value.attr
+        if isinstance(e, ast.Call) and isinstance(e.func, ast.Attribute) and e.func.attr == 'get' and not e.keywords \
+                and isinstance(e.func.value, ast.Attribute) and norm(e.func.value.value) == 'self' and e.args and norm(e.args[0]) == key \
+                and (len(e.args) == 1 or (len(e.args) == 2 and norm(e.args[1]) == 'None')):
+            return e.func.value.attr
+        return None
+
+    def fresh(e):
+        return isinstance(e, ast.Call) and isinstance(e.func, ast.Name) and e.func.id == thunk
+
+    locals_ok = set()
+    for x in walk_no_nested(node):
+        if isinstance(x, ast.Name) and isinstance(x.ctx, ast.Store):
+            locals_ok.add(x.id)
+    if key in locals_ok or thunk in locals_ok:
+        return None
+
+    def value_ok(e):
+        if fresh(e) or (isinstance(e, ast.Name) and e.id in locals_ok):
+            return True
+        s = entry(e)
+        if s is not None:
+            stores.add(s)
+            return True
+        return False
+
+    nret = nstore = 0
+    for x in walk_no_nested(node):
+        if isinstance(x, ast.Call):
+            if not (fresh(x) or entry(x) is not None):
+                return None
+        elif isinstance(x, (ast.Assign, ast.AnnAssign)):
+            if x.value is None:
+                continue
+            if not value_ok(x.value):
+                return None
+            for t in (x.targets if isinstance(x, ast.Assign) else [x.target]):
+                if isinstance(t, ast.Name):
+                    continue
+                s = entry(t) if isinstance(t, ast.Subscript) else None
+                if s is None:
+                    return None
+                stores.add(s)
+                nstore += 1
+        elif isinstance(x, ast.Return):
+            if x.value is None or not value_ok(x.value):
+                return None
+            nret += 1
+        elif isinstance(x, (ast.AugAssign, ast.Delete, ast.For, ast.While, ast.With, ast.Global, ast.Nonlocal, ast.Yield, ast.YieldFrom,
+                            ast.Await, ast.Lambda, ast.FunctionDef, ast.AsyncFunctionDef, ast.ClassDef, ast.NamedExpr)) and x is not node:
+            return None
+    if len(stores) != 1 or not nret or not nstore:
+        return None
+    return {'store': next(iter(stores)), 'key': key, 'thunk': thunk}
+
+
+def _memo_methods(prog):
+    """method name -> [(class, FunctionInfo, description)] of the compute-once accessors of the package"""
+    cache = prog.__dict__.get('_c19_memo_methods')
+    if cache is None:
+        cache = {}
+        for m in _package_modules(prog):
+            for k in m.classes.values():
+                for nm, f in k.methods.items():
+                    d = memo_method(f)
+                    if d is not None:
+                        cache.setdefault(nm, []).append((k, f, d))
+        prog.__dict__['_c19_memo_methods'] = cache
+    return cache
+
+
+def _store_ownership(prog, k, f, d):
+    """Whose is the store `self.S` a compute-once accessor answers from?  -> ('instance', why) when every object gets its
+    own empty one in the constructor and nothing but the accessor touches it; ('shared', why, line) when it is created
+    once for the class; ('unknown', why)"""
+    S = d['store']
+    fresh_init = False
+    for c in k.mro():
+        init = c.methods.get('__init__') or c.methods.get('__post_init__')
+        if init is None:
+            continue
+        for st in init.node.body:
+            t, v = (st.targets[0], st.value) if isinstance(st, ast.Assign) and len(st.targets) == 1 else \
+                ((st.target, st.value) if isinstance(st, ast.AnnAssign) else (None, None))
+            if t is not None and v is not None and norm(t) == f'self.{S}' and norm(v) in ('{}', 'dict()'):
+                fresh_init = True
+    class_level = None
+    is_dc = any(norm(x).split('(')[0].split('.')[-1] == 'dataclass' for x in k.node.decorator_list)
+    for c in k.mro():
+        for st in c.node.body:
+            t, v = (st.targets[0], st.value) if isinstance(st, ast.Assign) and len(st.targets) == 1 else \
+                ((st.target, st.value) if isinstance(st, ast.AnnAssign) else (None, None))
+            if isinstance(t, ast.Name) and t.id == S and v is not None:
+                if is_dc and isinstance(v, ast.Call) and call_name(v).split('.')[-1] == 'field' and kwarg(v, 'default_factory') is not None \
+                        and norm(kwarg(v, 'default_factory')) == 'dict' and 'ClassVar' not in norm(getattr(st, 'annotation', None) or ast.Constant(0)):
+                    fresh_init = True
+                else:
+                    class_level = st
+    for m, cls, fn, n, parent in _attr_mentions(prog).get(S, ()):
+        inside = m is f.module and cls == k.name and fn in (f.name, '__init__', '__post_init__') and norm(n.value) == 'self'
+        if not inside:
+            return ('unknown', f'`.{S}` is also used at {m.relpath}:{n.lineno}')
+    if fresh_init:
+        return ('instance', f'`self.{S}` is created empty for each object')
+    if class_level is not None:
+        return ('shared', f'`{S}` is bound once in the body of class {k.name} (`{norm(class_level)[:40]}`) and no constructor gives an '
+                f'object a store of its own, so `self.{S}` is one dictionary shared by every {k.name} of the process', class_level.lineno)
+    return ('unknown', f'`self.{S}` is not created in the constructor')
+
+
+def _receiver_class(prog, fi, e):
+    """class of the object `e` (a name of function fi) when that is evident: bound once to K(...), or a parameter
+    annotated K"""
+    if isinstance(e, ast.Call):
+        return prog.resolve_class_expr(fi.module, e.func)
+    if not isinstance(e, ast.Name):
+        return None
+    if e.id == 'self' and fi.cls is not None and fi.params[:1] == ['self']:
+        return fi.cls
+    a = fi.node.args
+    for p_ in a.posonlyargs + a.args + a.kwonlyargs:
+        if p_.arg == e.id and p_.annotation is not None:
+            ann = p_.annotation
+            if isinstance(ann, ast.Constant) and isinstance(ann.value, str):
+                try:
+                    ann = ast.parse(ann.value, mode='eval').body
+                except SyntaxError:
+                    return None
+            return prog.resolve_class_expr(fi.module, ann)
+    v = single_def_value(fi.node, e.id)
+    if isinstance(v, ast.Call):
+        return prog.resolve_class_expr(fi.module, v.func)
+    return None
+
+
+def memo_calls(prog, fi):
+    """[(call, class, accessor, description)] for the calls of compute-once accessors in function fi"""
+    mm = _memo_methods(prog)
+    out = []
+    if not mm:
+        return out
+    for c in ast.walk(fi.node):
+        if isinstance(c, ast.Call) and isinstance(c.func, ast.Attribute) and c.func.attr in mm:
+            k = _receiver_class(prog, fi, c.func.value)
+            for kk, f, d in mm[c.func.attr]:
+                if k is not None and any(b is kk for b in k.mro()) and k.find_method(c.func.attr) == f:
+                    out.append((c, kk, f, d))
+    return out
+
+
+def _thunk_text(recv, lam):
+    """the computation with the receiver's name masked (call sites name the same object differently)"""
+    body = _clone(lam.body)
+    if isinstance(recv, ast.Name):
+        for x in ast.walk(body):
+            if isinstance(x, ast.Name) and x.id == recv.id:
+                x.id = '<receiver>'
+    return norm(body)
+
+
+def memo_site(prog, fi, c, k, f, d):
+    """Verdict on one call `recv.m(key, lambda: E)` of a compute-once accessor: ('ok', E) when the answer kept on the object is
+    the answer computed now; ('bad', why) when it is established that it can be another one; ('undecided', why)"""
+    b = bind_args(c, f.node, True)
+    if b is None:
+        return 'undecided', 'arguments cannot be bound'
+    key, lam = b[d['key']], b[d['thunk']]
+    recv = c.func.value
+    if not (isinstance(lam, ast.Lambda) and not (lam.args.args or lam.args.posonlyargs or lam.args.kwonlyargs or lam.args.vararg or lam.args.kwarg)):
+        return 'undecided', f'the computation handed to {f.name} is not a lambda without parameters'
+    if not isinstance(recv, ast.Name):
+        return 'undecided', 'the object the answer is kept on is not a plain name'
+    bound = _bound_names(fi.node)
+    inner = {x.id for x in ast.walk(lam.body) if isinstance(x, ast.Name) and isinstance(x.ctx, ast.Store)} | \
+        {a_.arg for x in ast.walk(lam.body) if isinstance(x, ast.Lambda) for a_ in x.args.args}
+    reads = sorted({x.id for x in ast.walk(lam.body) if isinstance(x, ast.Name) and x.id in bound and x.id not in inner}
+                   - {'self', 'cls', recv.id})
+    own = _store_ownership(prog, k, f, d)
+    if own[0] == 'shared':
+        return 'bad', (f'{own[1]}: `{norm(c)[:70]}` hands out what the first {k.name} of the process computed under '
+                       f'{norm(key)} - the flight state of an earlier call, not the one passed in')
+    if reads:
+        return 'bad', (f'`{norm(c)[:70]}` keeps the answer on `{recv.id}` under the key {norm(key)} alone, but the computation also reads '
+                       f'`{reads[0]}`, which changes between calls on the same `{recv.id}`: later calls get the answer computed for an earlier `{reads[0]}`')
+    if own[0] != 'instance':
+        return 'undecided', own[1]
+    if not (isinstance(key, ast.Constant) and isinstance(key.value, str)):
+        return 'undecided', f'the key `{norm(key)[:40]}` is not a literal'
+    mine = _thunk_text(recv, lam)
+    for m in _package_modules(prog):
+        for g in m.functions.values():
+            if '.<locals>.' in g.qualname:
+                continue
+            for c2, k2, f2, d2 in memo_calls(prog, g):
+                if f2 != f:
+                    continue
+                b2 = bind_args(c2, f.node, True)
+                if b2 is None or not isinstance(b2[d['key']], ast.Constant) or not isinstance(b2[d['thunk']], ast.Lambda):
+                    return 'undecided', f'another call of {f.name} (line {c2.lineno}) has a key or a computation that cannot be read'
+                if b2[d['key']].value == key.value and _thunk_text(c2.func.value, b2[d['thunk']]) != mine:
+                    return 'bad', (f'the key {norm(key)} stands for `{mine[:50]}` here and for `{_thunk_text(c2.func.value, b2[d["thunk"]])[:50]}` '
+                                   f'at line {int(-(-c2.lineno // 1))}: whichever runs first on an object answers for both')
+    # what the computation reads of the object must stay as constructed
+    for x in ast.walk(lam.body):
+        if isinstance(x, ast.Attribute) and isinstance(x.value, ast.Name) and x.value.id == recv.id and not _field_frozen(prog, k, x.attr):
+            return 'undecided', f'`{recv.id}.{x.attr}` is stored to after construction'
+    cf_fields = set()
+    init = k.find_method('__init__')
+    if init is not None:
+        from ..resolve import self_attr_stores
+        cf_fields = {a for a, _s, _h in self_attr_stores(init)}
+    for fld in cf_fields - {d['store']}:
+        if not _field_frozen(prog, k, fld):
+            return 'undecided', f'field `{fld}` of {k.name} is stored to after construction'
+    return 'ok', lam.body
+
+
+def reduce_memo_calls(prog, fi, e, notes):
+    """`e` with every compute-once call whose verdict is 'ok' replaced by its computation; the others are listed in
+    `notes` as (call, verdict, why)"""
+    sites = {id(c): (c, k, f, d) for c, k, f, d in memo_calls(prog, fi)}
+    if not sites or not any(id(x) in sites for x in ast.walk(e)):
+        return e
+
+    def cp(n):
+        if isinstance(n, ast.AST):
+            s = sites.get(id(n))
+            if s is not None:
+                vc = prog.__dict__.setdefault('_c19_site_verdicts', {})
+                if id(n) not in vc:
+                    vc[id(n)] = (n, memo_site(prog, fi, *s))
+                v, x = vc[id(n)][1]
+                if v == 'ok':
+                    return cp(x)
+                notes.append((s[0], v, x))
+            new = n.__class__()
+            for f_ in n._fields:
+                setattr(new, f_, cp(getattr(n, f_, None)))
+            for a in ('lineno', 'col_offset', 'end_lineno', 'end_col_offset'):
+                if hasattr(n, a):
+                    setattr(new, a, getattr(n, a))
+            return new
+        if isinstance(n, list):
+            return [cp(x) for x in n]
+        return n
+    return cp(e)
+
+
 class Flow:
     """Resolved values of a function whose body is straight-line (assignments, expression statements, one return).
     Names bound under a branch or a loop, or by an unpacking that is not element-wise, stay opaque (they resolve to
@@ -457,13 +893,17 @@ class Flow:
         # guard clauses `if c: [assignments]; return v` at the top level: (resolved c, resolved v, the if statement); the
         # function goes on straight-line after them with the values it had before
         self.early: list[tuple[ast.expr, ast.expr | None, ast.stmt]] = []
+        # compute-once calls that could not be replaced by their computation: (call, 'bad' | 'undecided', why)
+        self.memo_open: list[tuple[ast.Call, str, str]] = []
         for s in fi.node.body:
             self._stmt(s)
 
     def resolve(self, e):
+        e = reduce_memo_calls(self.prog, self.fi, e, self.memo_open)
         e = _Subst(self.env).visit(_clone(e))
         e = fold_tables(self.prog, self.fi.module, e, self.bound)
-        return self._inline_calls(e) if self.inline else e
+        e = self._inline_calls(e) if self.inline else e
+        return fold_record_reads(self.prog, self.fi.module, e)
 
     def _bind(self, t, v):
         if isinstance(t, ast.Name):
@@ -781,6 +1221,15 @@ def _none_negative(cond, v):
     return (f == 'any' and neg and op is ast.Lt) or (f == 'all' and not neg and op is ast.GtE)
 
 
+def _memo_blocks(ctx, rule, fi, fl):
+    """A value the rule is about goes through a compute-once call that is not its computation: R8 reports the ones that are
+    established to be wrong (the rule has nothing to add: True); the ones that cannot be judged leave the rule undecided"""
+    for c, v, why in fl.memo_open:
+        if v == 'undecided':
+            ctx.undecided(rule, fi, norm(c)[:60], f'the value is kept on an object between calls and it cannot be shown that it is the one computed now: {why}')
+    return bool(fl.memo_open)
+
+
 def rule_thrust(ctx):
     prog = ctx.prog
     m = prog.module(MODEL)
@@ -789,6 +1238,8 @@ def rule_thrust(ctx):
     R = fl.ret
     if not fl.straight or fl.returns != 1 or R is None:
         ctx.undecided('C19-R2', ct, 'thrust', 'calculate_thrust is not a straight-line function with one return (guard clauses aside)')
+    if _memo_blocks(ctx, 'C19-R2', ct, fl):
+        return
     line = R.lineno
 
     # definite wrong forms: a lower *bound* (clip / maximum) instead of substitution where negative
@@ -967,6 +1418,8 @@ def rule_fuelflow(ctx):
     R = fl.ret
     if not fl.straight or fl.returns != 1 or R is None or fl.early:
         ctx.undecided('C19-R3', sg, 'specific ground range', 'not a straight-line function with one return')
+    if _memo_blocks(ctx, 'C19-R3', sg, fl):
+        return
     # specific ground range = ground speed / fuel flow behind a non-zero guard
     FF = None
     ok = False
@@ -1023,6 +1476,15 @@ def rule_fuelflow(ctx):
     if ok:
         ok, how = _state_args(prog, sg, TH, {k: k for k in ('mass', 'temperature', 'altitude', 'v_tas', 'rocd',
                                                             'acceleration', 'in_cruise')})
+    else:
+        # the thrust written out in place: the value calculate_thrust returns for the parameters of the same names (R2 decides
+        # that value); both sides with locals resolved and helpers opened alike
+        ct = m.func('Bada3FuelBurnModel.calculate_thrust')
+        want = {k: k for k in ('mass', 'temperature', 'altitude', 'v_tas', 'rocd', 'acceleration', 'in_cruise')}
+        if all(k in sg.params and k in ct.params for k in want):
+            cf = Flow(prog, ct, methods=True, keep=manual_methods())
+            if cf.straight and cf.returns == 1 and cf.ret is not None and not cf.early and not cf.memo_open:
+                ok = _same(cf.ret, TH)
     ctx.ob('C19-R3', sg, 'thrust from calculate_thrust with the flight state in declared order', ok,
            'limited thrust' if ok else 'fuel flow is not computed from the limited thrust of this state',
            line=TH.lineno)
@@ -1109,6 +1571,122 @@ def rule_update(ctx):
                'mass', nontrivial=False)
 
 
+def _is_mtow_cap(fn, v):
+    """`v` (a name bound once is followed) is min(<one expression>, mtow) in any of its spellings -> (ok, the other operand)"""
+    for _ in range(6):
+        d = single_def_value(fn, v.id) if isinstance(v, ast.Name) else None
+        if d is None:
+            break
+        v = d
+    if isinstance(v, ast.Call) and call_name(v) in ('np.min', 'min', 'np.minimum', 'np.amin', 'np.fmin', 'numpy.min', 'numpy.minimum'):
+        args = v.args[0].elts if len(v.args) == 1 and isinstance(v.args[0], (ast.Tuple, ast.List)) else v.args
+        names = [norm(a) for a in args]
+        return 'mtow' in names and len(args) == 2, next((a for a in args if norm(a) != 'mtow'), None), v
+    return False, None, v
+
+
+def capped_at_returns(fn, vec='mass'):
+    """Must-analysis over the structure of `fn`: is `vec[0]` a value capped at MTOW wherever `vec` is returned?
+    State: True after `vec[0] = min(…, mtow)`; False after `vec` is bound to a new array or `vec[0]` (or a slice that
+    covers it) is stored anything else; the forward update `vec = self.update_mass_vector(vec, …)` keeps vec[0] (R4: its
+    single store is mass[1:]).  Both arms of a test are joined (capped on both); a loop is taken to run at least one pass
+    (the n_iter = 0 call returns the caller's estimate in the original too) and is iterated until the state at the top of
+    its body is stable, so the first pass - entered with the state from before the loop - and the later ones are all
+    covered.  -> [(return stmt, capped, line of the last capped store seen in the function)] for the returns inside or
+    after a loop."""
+    out = []
+    caps = []
+
+    def kills(st):
+        for x in ast.walk(st):
+            if isinstance(x, ast.Subscript) and isinstance(x.ctx, (ast.Store, ast.Del)) and norm(x.value) == vec:
+                return True
+            if isinstance(x, ast.Name) and isinstance(x.ctx, (ast.Store, ast.Del)) and x.id == vec:
+                return True
+        return False
+
+    def run(stmts, state, looped, loop):
+        """-> state after the block, or None when it always leaves; loop = [states at break, states at continue] or None"""
+        for st in stmts:
+            if state is None:
+                return None
+            if isinstance(st, ast.Return):
+                if looped and st.value is not None and any(isinstance(x, ast.Name) and x.id == vec for x in ast.walk(st.value)):
+                    out.append((st, state))
+                return None
+            if isinstance(st, ast.Raise):
+                return None
+            if isinstance(st, (ast.Break, ast.Continue)):
+                if loop is not None:
+                    loop[0 if isinstance(st, ast.Break) else 1].append(state)
+                return None
+            if isinstance(st, (ast.FunctionDef, ast.AsyncFunctionDef, ast.ClassDef)):
+                continue
+            if isinstance(st, ast.If):
+                t = const_truth(st.test)
+                arms = [st.body, st.orelse] if t is None else [st.body if t else st.orelse]
+                res = [run(a, state, looped, loop) for a in arms]
+                live = [r for r in res if r is not None]
+                state = None if not live else all(live)
+                continue
+            if isinstance(st, (ast.For, ast.AsyncFor, ast.While)):
+                inner = [[], []]
+                s_in, ends = state, []
+                mark = len(out)
+                for _ in range(3):
+                    del out[mark:]
+                    inner = [[], []]
+                    # every pass must leave the state the later passes are entered with: judge the body for the state before
+                    # the loop and for the state at the end of a pass, together
+                    r = run(st.body, s_in, True, inner)
+                    end = [x for x in [r] + inner[1] if x is not None]
+                    nxt = s_in and all(end) if end else s_in
+                    ends = end
+                    if nxt == s_in:
+                        break
+                    s_in = nxt
+                exits = ends + inner[0]
+                state = all(exits) if exits else None
+                if state is not None and st.orelse:
+                    state = run(st.orelse, state, True, loop)
+                looped = True
+                continue
+            if isinstance(st, (ast.With, ast.AsyncWith)):
+                state = run(st.body, state, looped, loop)
+                continue
+            if isinstance(st, ast.Try):
+                r = run(st.body, state, looped, loop)
+                hs = [run(h.body, bool(state and (r is None or r)), looped, loop) for h in st.handlers]
+                if r is not None and st.orelse:
+                    r = run(st.orelse, r, looped, loop)
+                live = [x for x in [r] + hs if x is not None]
+                state = None if not live else all(live)
+                if st.finalbody and state is not None:
+                    state = run(st.finalbody, state, looped, loop)
+                continue
+            if isinstance(st, ast.Match):
+                res = [run(c.body, state, looped, loop) for c in st.cases]
+                live = [r for r in res if r is not None] + [state]
+                state = all(live)
+                continue
+            # simple statement
+            if isinstance(st, ast.Assign) and len(st.targets) == 1 and norm(st.targets[0]) == f'{vec}[0]':
+                state = bool(_is_mtow_cap(fn, st.value)[0])
+                if state:
+                    caps.append(st.lineno)
+                continue
+            if isinstance(st, ast.Assign) and len(st.targets) == 1 and norm(st.targets[0]) == vec and isinstance(st.value, ast.Call) \
+                    and call_name(st.value) in ('self.update_mass_vector', 'super().update_mass_vector') \
+                    and norm(st.value.args[0] if st.value.args else (kwarg(st.value, 'mass') or ast.Constant(None))) == vec:
+                continue
+            if kills(st):
+                state = False
+        return state
+
+    run(fn.body, False, False, None)
+    return [(st, ok, (int(-(-min(caps) // 1)) if caps else None)) for st, ok in out]
+
+
 def rule_mtow(ctx):
     prog = ctx.prog
     m = prog.module(MODEL)
@@ -1119,23 +1697,24 @@ def rule_mtow(ctx):
         sts = [s for t, s, how in stores_to(f.node) if norm(t) == 'mass[0]']
         ctx.floor(f'C19-R5/{f.name[-8:]}', len(sts), 1, 'assignments of mass[0]')
         for s in sts:
-            v = s.value
-            if isinstance(v, ast.Name):
-                d = single_def_value(f.node, v.id)
-                v = d if d is not None else v
-            ok = False
-            inner = None
-            if isinstance(v, ast.Call) and call_name(v) in ('np.min', 'min', 'np.minimum', 'np.amin'):
-                args = v.args[0].elts if len(v.args) == 1 and isinstance(v.args[0], (ast.Tuple, ast.List)) else v.args
-                names = [norm(a) for a in args]
-                ok = 'mtow' in names and len(args) == 2
-                inner = next((a for a in args if norm(a) != 'mtow'), None)
+            ok, inner, v = _is_mtow_cap(f.node, s.value)
             ctx.ob('C19-R5', f, f'mass[0] = {norm(v)[:80]}', ok,
                    'the value assigned to the take-off mass is min(…, mtow)' if ok else
                    'the initial mass written back is not capped at MTOW as a whole (capping an intermediate '
                    'term lets reserve fuel push it above MTOW)', line=s.lineno)
             if inner is not None:
                 forms.append((f, inner))
+        # ... and the vector is never handed back with a take-off mass that has not been through that assignment
+        rets = capped_at_returns(f.node)
+        ctx.floor(f'C19-R5/{f.name[-8:]}/returns', len(rets), 1, 'returns of the mass vector in or after the iteration loop')
+        for r, okr, capline in rets:
+            ctx.ob('C19-R5', f, f'`{norm(r)[:40]}` (line {r.lineno}) hands back a capped take-off mass', okr,
+                   'on every path to it, the last store to mass[0] is min(…, mtow)' if okr else
+                   ('the mass vector is returned on a path on which mass[0] has not been assigned its capped value: in the first pass of the '
+                    'loop it is still what the function started with (the caller\'s initial_mass_estimate, which may lie above MTOW)'
+                    + (f'; the assignment `mass[0] = min(…, mtow)` (line {capline}) comes only after this return' if capline and capline > r.lineno else '')
+                    + ' - when the convergence test succeeds in the first pass the returned profile starts above maximum take-off mass'),
+                   line=r.lineno)
         fb = single_def_value(f.node, 'fuel_burn')
         ok = fb is not None and norm(fb) == 'mass[0] - mass[-1]'
         ctx.ob('C19-R5', f, 'fuel burn = first minus last mass', ok, 'mass[0] - mass[-1]' if ok else
@@ -1444,6 +2023,8 @@ def rule_state(ctx):
         if fi.cls is None or fi.name.startswith('__') or '.<locals>.' in fi.qualname:
             continue
         n += 1
+        if memo_method(fi) is not None:
+            continue           # a compute-once accessor answers for whatever computation it is handed: judged at its call sites
         state = _runtime_state(fi.cls, classes)
         if not state:
             continue
@@ -1458,6 +2039,40 @@ def rule_state(ctx):
                    why if ok else f'{why}: the method answers for the state of an earlier call, not the one passed in '
                    '(thrust limits and fuel flow of another altitude / speed / temperature enter the mass integration)',
                    line=r.lineno)
+    # answers kept on another object (a flight-state record with a compute-once accessor): each call site
+    shared_seen = set()
+    judged = set()
+    for pm_ in _package_modules(prog):
+        for g in pm_.functions.values():
+            judged |= {id(c) for c, _k, _f, _d in memo_calls(prog, g)}
+    for nm, lst in _memo_methods(prog).items():
+        for pm_, cls_, fn_, n_, par_ in _attr_mentions(prog).get(nm, ()):
+            if isinstance(par_, ast.Call) and par_.func is n_ and id(par_) not in judged:
+                ctx.undecided('C19-R8', lst[0][1], norm(par_)[:60], f'a call of the compute-once accessor `{nm}` (line {par_.lineno}) on an object whose '
+                              'class is not evident: it cannot be shown that the answer handed out is the one this call would compute')
+            elif not (isinstance(par_, ast.Call) and par_.func is n_):
+                ctx.undecided('C19-R8', lst[0][1], norm(par_ or n_)[:60], f'the compute-once accessor `{nm}` is used other than by calling it (line {n_.lineno})')
+    for g in m.functions.values():
+        if '.<locals>.' in g.qualname:
+            continue
+        for c, k, f, d in memo_calls(prog, g):
+            vc = prog.__dict__.setdefault('_c19_site_verdicts', {})
+            if id(c) not in vc:
+                vc[id(c)] = (c, memo_site(prog, g, c, k, f, d))
+            v, x = vc[id(c)][1]
+            if v == 'undecided':
+                ctx.undecided('C19-R8', g, norm(c)[:60], f'an answer kept on the object by {k.name}.{f.name} is handed out, and it cannot be '
+                              f'shown that it is the one this call would compute: {x}')
+            own = _store_ownership(prog, k, f, d)
+            if v == 'bad' and own[0] == 'shared':
+                if (k.name, f.name) in shared_seen:
+                    continue
+                shared_seen.add((k.name, f.name))
+            ctx.ob('C19-R8', g, f'`{norm(c)[:60]}` answers with what this call computes', v == 'ok',
+                   f'the store is the object\'s own, the key {norm(c.args[0])[:30] if c.args else ""} always stands for this computation, which reads '
+                   'only the object and self' if v == 'ok' else
+                   f'{x}: thrust limits / descent thrust of another altitude, speed or temperature enter the thrust, the fuel flow and the mass integration',
+                   line=(own[2] if v == 'bad' and own[0] == 'shared' else c.lineno))
     ctx.floor('C19-R8', n, 30, 'methods of the BADA-3 model classes examined for answers from instance state')
 
 
@@ -2324,6 +2939,103 @@ def _value_text(v):
     return 'a value that differs between paths'
 
 
+def _match_with_hole(pat, e, hole, found):
+    """structural equality of `pat` and `e` where every Name `hole` of the pattern stands for one and the same subtree of `e`"""
+    if isinstance(pat, ast.Name) and pat.id == hole:
+        if not found:
+            found.append(e)
+            return True
+        return isinstance(e, ast.AST) and norm(found[0]) == norm(e)
+    if isinstance(pat, ast.AST):
+        if type(pat) is not type(e):
+            return False
+        return all(_match_with_hole(getattr(pat, f, None), getattr(e, f, None), hole, found) for f in pat._fields if f != 'ctx')
+    if isinstance(pat, list):
+        return isinstance(e, list) and len(pat) == len(e) and all(_match_with_hole(a, b, hole, found) for a, b in zip(pat, e))
+    return pat == e
+
+
+def written_out_evaluations(prog, entry, sgr, update_names):
+    """The specific ground range written out in place (a helper that took the state as an object was dissolved into the
+    entry point): for every `self.update_mass_vector[_backward](A, B, D)` statement of `entry`, is B - resolved over the
+    straight-line statements of its block, objects built once at the top of the function included - the value
+    calculate_specific_ground_range returns for the entry point's own temperature .. groundspeed and one mass expression M?
+    -> {id(call): (M, A, D) resolved} for the calls where it is.  Names of the state that the function rebinds (to anything
+    but themselves) cancel the recognition."""
+    from ..loader import FunctionInfo
+    want = Flow(prog, sgr, methods=True, keep=manual_methods())
+    if not want.straight or want.returns != 1 or want.ret is None or want.early or want.memo_open:
+        return {}
+    roles = [r for r in SGR_ROLES] + ['segment_distance']
+    if any(r not in entry.params for r in roles) or any(r not in sgr.params for r in SGR_ROLES) or 'mass' not in sgr.params:
+        return {}
+    body = entry.node.body
+
+    def synth(stmts):
+        fn = ast.FunctionDef(name=entry.node.name, args=entry.node.args, body=list(stmts), decorator_list=[], returns=None,
+                             type_comment=None, lineno=entry.node.lineno, col_offset=0)
+        if hasattr(entry.node, 'type_params'):
+            fn.type_params = []
+        return FunctionInfo(entry.qualname, fn, entry.module, entry.cls)
+
+    # objects built once, at the top level, from the parameters
+    seeds = []
+    for st in body:
+        if isinstance(st, ast.Assign) and len(st.targets) == 1 and isinstance(st.targets[0], ast.Name) \
+                and single_def_value(entry.node, st.targets[0].id) is st.value and isinstance(st.value, ast.Call) \
+                and prog.resolve_class_expr(entry.module, st.value.func) is not None \
+                and all(_simple_arg(a) for a in list(st.value.args) + [k.value for k in st.value.keywords]):
+            seeds.append(st)
+    # the state names mean what the entry point received
+    for x in walk_no_nested(entry.node):
+        if isinstance(x, (ast.Assign, ast.AnnAssign, ast.AugAssign, ast.For, ast.With, ast.NamedExpr)):
+            tg = [n.id for t in (x.targets if isinstance(x, ast.Assign) else [getattr(x, 'target', None)] if not isinstance(x, ast.With) else
+                                 [i.optional_vars for i in x.items]) if t is not None for n in ast.walk(t) if isinstance(n, ast.Name)]
+            hit = [n for n in tg if n in roles]
+            if not hit:
+                continue
+            if not isinstance(x, ast.Assign):
+                return {}
+            fl = Flow(prog, synth(seeds + [x]), methods=True, keep=manual_methods())
+            if any(not (isinstance(fl.env.get(n), ast.Name) and fl.env[n].id == n) for n in hit):
+                return {}
+    out = {}
+
+    def block(stmts):
+        for i, st in enumerate(stmts):
+            for f in ('body', 'orelse', 'finalbody'):
+                sub = getattr(st, f, None)
+                if isinstance(sub, list) and sub and isinstance(sub[0], ast.stmt):
+                    block(sub)
+            for h in getattr(st, 'handlers', None) or []:
+                block(h.body)
+            for c_ in getattr(st, 'cases', None) or []:
+                block(c_.body)
+            if not isinstance(st, (ast.Assign, ast.AnnAssign, ast.Expr, ast.Return)) or getattr(st, 'value', None) is None:
+                continue
+            for c in ast.walk(st.value):
+                if not (isinstance(c, ast.Call) and isinstance(c.func, ast.Attribute) and c.func.attr in update_names and norm(c.func.value) == 'self'):
+                    continue
+                fn_, drop = _callee_params(prog, entry, c)
+                b = bind_args(c, fn_, drop) if fn_ is not None else None
+                if b is None or not all(k in b for k in ('mass', 'specific_ground_range', 'segment_distance')):
+                    continue
+                prefix = [s_ for s_ in stmts[:i] if s_ not in seeds]
+                ret = ast.Return(value=ast.Tuple(elts=[b['mass'], b['specific_ground_range'], b['segment_distance']], ctx=ast.Load()))
+                ast.copy_location(ret, st)
+                ast.copy_location(ret.value, st)
+                fl = Flow(prog, synth(seeds + prefix + [ret]), methods=True, keep=manual_methods())
+                if fl.ret is None or not isinstance(fl.ret, ast.Tuple) or fl.memo_open or fl.early:
+                    continue
+                A, B, D = fl.ret.elts
+                found = []
+                if _match_with_hole(want.ret, B, 'mass', found) and found:
+                    out[id(c)] = (found[0], A, D)
+
+    block(body)
+    return out
+
+
 def rule_entry_state(ctx):
     """R9: see the module docstring"""
     prog = ctx.prog
@@ -2349,6 +3061,8 @@ def rule_entry_state(ctx):
         sf.run(f, start)
         seen = set()
         nsgr = nupd = 0
+        written = written_out_evaluations(prog, f, sgr, ('update_mass_vector', 'update_mass_vector_backward')) \
+            if any(kind != 'sgr' and (bound or {}).get('specific_ground_range', _TOP)[0] != 'S' for kind, _c, _l, bound, _k in records) else {}
         for kind, call, line, bound, callee in records:
             if (id(call), line) in seen:
                 continue
@@ -2379,6 +3093,21 @@ def rule_entry_state(ctx):
             else:
                 nupd += 1
                 sv, mv, dv = bound.get('specific_ground_range'), bound.get('mass'), bound.get('segment_distance')
+                if (sv is None or sv[0] != 'S') and id(call) in written:
+                    # the evaluation is written out in place: by value, the specific ground range of the state received
+                    M, A, D = written[id(call)]
+                    nsgr += 1
+                    ctx.ob('C19-R9', f, f'specific ground range at the flight state received, written out in place (line {line})', True,
+                           'equal, locals resolved and helpers opened, to what calculate_specific_ground_range returns for temperature, altitude, '
+                           f'v_tas, rocd, acceleration, in_cruise, groundspeed as received and the mass `{norm(M)[:40]}`', line=line)
+                    okm = _same(M, A)
+                    ctx.ob('C19-R9', f, f'{callee.name}: range evaluated for the mass vector being updated (line {line})', okm,
+                           'same mass vector' if okm else
+                           'the mass vector is updated with a specific ground range that was evaluated for another (earlier) mass vector: '
+                           'the iteration no longer feeds the fuel flow of the current mass profile into the trapezoid', line=line, nontrivial=False)
+                    if norm(D) != 'segment_distance':
+                        ctx.undecided('C19-R9', f, norm(call)[:60], f'the segment lengths handed to {callee.name} are `{norm(D)[:40]}`')
+                    continue
                 if sv is None or sv[0] != 'S':
                     ctx.undecided('C19-R9', f, norm(call)[:60], f'the specific ground range handed to {callee.name} is {_value_text(sv or _TOP)}, '
                                   'not the result of calculate_specific_ground_range')
@@ -2434,5 +3163,6 @@ def run(ctx):
     rule_state(ctx)
     rule_entry_state(ctx)
     rule_equations(ctx)
-    ctx.assumptions += ['scipy cumulative_trapezoid implements the trapezoid rule; numpy where/divide semantics',
+    ctx.assumptions += ['R5: the iteration loops run at least one pass (n_iter >= 1; with n_iter = 0 the original returns the caller\'s estimate too)',
+                        'scipy cumulative_trapezoid implements the trapezoid rule; numpy where/divide semantics',
                         'reference equations transcribed from the BADA 3 user manual (sections 3.2, 3.6, 3.7, 3.9)']
